@@ -117,6 +117,10 @@ func main() {
 	child := flag.String("child", "", "internal: run one contained operation batch")
 	flag.Parse()
 
+	if os.Getenv("VERIF_C17_CHILD") != "" { // contained evaluation of hostile inputs (parsers.go)
+		c17Child()
+		return
+	}
 	if *child != "" {
 		runChild(*child)
 		return
